@@ -1,4 +1,415 @@
-//! harness family c12fs — stub until the family is built
+//! harness family c12fs: the file-system READ PATHS of C12 on adversarial images, tied to the concrete
+//! panic-explicit models (`lean/A2Verif/Model/Fs/*.lean` + `Model/C12FsId.lean`).
+//!
+//! Per file system: a small valid volume is built by the real code, then exactly the pointer / count /
+//! length fields that the read paths use are corrupted (1-3 fields per case, boundary values).  For every
+//! image: identify (`test_img`) + mount (`from_img`) of that file system, `stat`, `catalog_to_vec`, `tree`,
+//! `glob`, `get` of every listed name and of the seed's own names, each under `catch_unwind`, the whole case in
+//! a watched thread inside a child process (as family c12).  The outcome class of every call
+//! (ok / err / panic) is compared with the Lean model's (`Q` lines, family word `c12fs`); the direct oracle
+//! `no-crash` requires that no call of a *mounted* image (test_img = true, i.e. what the CLI can reach) panics
+//! or hangs, sig `panic:<file>:<msg>` / `hang:<front>` / `abort:<front>`.
 use crate::util::*;
+use a2kit::fs::DiskFS;
+use a2kit::img::DiskImage;
+use a2kit::commands::ItemType;
+use std::sync::mpsc;
+use std::time::Duration;
 
-pub fn run(ctx: &mut Ctx) { ctx.out.case(b"c12fs-stub", false); }
+const ORACLE: &str = "no-crash";
+
+// ------------------------------------------------------------------------------------------------
+// guarded + watched calls (same discipline as family c12)
+// ------------------------------------------------------------------------------------------------
+
+#[derive(Clone, Debug, PartialEq)]
+enum Outc { Done(String), Hang }
+
+fn panic_sig(p: &str) -> String {
+    let (loc, msg) = match p.find(" [") { Some(i) => (&p[..i], &p[i + 2..]), None => (p, "") };
+    let file = loc.rsplitn(2, ':').last().unwrap_or(loc);
+    let file = match file.find("src/") { Some(i) => &file[i..], None => file };
+    let mut m = String::new();
+    let mut last_digit = false;
+    for c in msg.trim_end_matches(']').chars() {
+        if c.is_ascii_digit() { if !last_digit { m.push('N'); } last_digit = true; }
+        else if c.is_ascii_alphanumeric() { m.push(c.to_ascii_lowercase()); last_digit = false; }
+        else { if !m.ends_with('-') { m.push('-'); } last_digit = false; }
+    }
+    let m: String = m.trim_matches('-').chars().take(48).collect();
+    format!("panic:{}:{}", file, m)
+}
+
+fn watched<F>(ms: u64, f: F) -> Outc
+where F: FnOnce() -> String + Send + 'static {
+    let (tx, rx) = mpsc::channel();
+    let h = std::thread::Builder::new().stack_size(16 << 20).spawn(move || { let r = f(); let _ = tx.send(r); });
+    let h = match h { Ok(h) => h, Err(_) => return Outc::Hang };
+    match rx.recv_timeout(Duration::from_millis(ms)) {
+        Ok(s) => { let _ = h.join(); Outc::Done(s) }
+        Err(_) => Outc::Hang,
+    }
+}
+
+/// one guarded call: class + panic site
+struct Call { op: String, class: &'static str, site: String }
+
+fn call<T, E>(op: &str, calls: &mut Vec<Call>, f: impl FnOnce() -> Result<T, E>) -> Option<T> {
+    match guarded(f) {
+        Ok(Ok(v)) => { calls.push(Call { op: op.to_string(), class: "ok", site: String::new() }); Some(v) }
+        Ok(Err(_)) => { calls.push(Call { op: op.to_string(), class: "err", site: String::new() }); None }
+        Err(p) => { calls.push(Call { op: op.to_string(), class: "panic", site: p }); None }
+    }
+}
+
+// ------------------------------------------------------------------------------------------------
+// cases
+// ------------------------------------------------------------------------------------------------
+
+#[derive(Clone)]
+struct Case {
+    fs: &'static str,
+    /// flat image bytes (PO / DO / IMG order = the model's unit order)
+    bytes: Vec<u8>,
+    unit: usize,
+    desc: String,
+    /// names whose `get` is tried whatever the listing says
+    names: Vec<String>,
+    /// extra tokens of the model request (geometry etc.), without the units
+    extra: String,
+    trivial: bool,
+}
+
+/// a field of the on-disk structures: byte offset in the flat image, width, name, boundary values
+#[derive(Clone)]
+struct Field { off: usize, width: usize, name: String, vals: Vec<u64> }
+
+fn poke(b: &mut [u8], off: usize, width: usize, v: u64) {
+    for k in 0..width { if off + k < b.len() { b[off + k] = ((v >> (8 * k)) & 0xff) as u8; } }
+}
+fn peek(b: &[u8], off: usize, width: usize) -> u64 {
+    let mut v = 0u64; for k in 0..width { if off + k < b.len() { v |= (b[off + k] as u64) << (8 * k); } } v
+}
+
+fn dedup(mut v: Vec<u64>, width: usize) -> Vec<u64> {
+    let m = if width >= 8 { u64::MAX } else { (1u64 << (8 * width)) - 1 };
+    for x in v.iter_mut() { *x &= m; }
+    v.sort(); v.dedup(); v
+}
+
+/// units of the flat image that are not all zero, as `i:HEX,i:HEX` (`-` if none)
+fn sparse_units(bytes: &[u8], unit: usize) -> String {
+    let mut parts: Vec<String> = Vec::new();
+    for (i, ch) in bytes.chunks(unit).enumerate() {
+        if ch.iter().any(|x| *x != 0) { parts.push(format!("{}:{}", i, hex::encode_upper(ch))); }
+    }
+    if parts.is_empty() { "-".to_string() } else { parts.join(",") }
+}
+
+/// from all fields: every single (field, value); then `n_multi` random 2-3 field combinations
+fn cases_from_fields(fs: &'static str, seed: &[u8], unit: usize, names: &[String], extra: &str, fields: &[Field],
+                     rng: &mut Rng, n_single: usize, n_multi: usize) -> Vec<Case> {
+    let mut out = Vec::new();
+    let mut singles: Vec<(usize, u64)> = Vec::new();
+    for (i, f) in fields.iter().enumerate() { for v in &f.vals { if *v != peek(seed, f.off, f.width) { singles.push((i, *v)); } } }
+    // deterministic sample of the singles
+    if singles.len() > n_single {
+        for i in 0..n_single { let j = i + rng.below(singles.len() - i); singles.swap(i, j); }
+        singles.truncate(n_single);
+        singles.sort();
+    }
+    for (i, v) in singles {
+        let f = &fields[i];
+        let mut b = seed.to_vec(); poke(&mut b, f.off, f.width, v);
+        out.push(Case { fs, bytes: b, unit, desc: format!("{}:={}", f.name, v), names: names.to_vec(), extra: extra.to_string(), trivial: false });
+    }
+    for _ in 0..n_multi {
+        let k = 2 + rng.below(2);
+        let mut b = seed.to_vec(); let mut d: Vec<String> = Vec::new();
+        for _ in 0..k {
+            let f = rng.pick(fields).clone();
+            if f.vals.is_empty() { continue; }
+            let v = *rng.pick(&f.vals);
+            poke(&mut b, f.off, f.width, v); d.push(format!("{}:={}", f.name, v));
+        }
+        let trivial = b == seed;
+        out.push(Case { fs, bytes: b, unit, desc: d.join(" "), names: names.to_vec(), extra: extra.to_string(), trivial });
+    }
+    out
+}
+
+// ------------------------------------------------------------------------------------------------
+// Pascal
+// ------------------------------------------------------------------------------------------------
+
+fn pascal_seed() -> Option<(Vec<u8>, Vec<String>)> {
+    let img = a2kit::img::dsk_po::PO::create(280);
+    let mut d = a2kit::fs::pascal::Disk::from_img(Box::new(img)).ok()?;
+    d.format("TEST", 0, None).ok()?;
+    let mut disk: Box<dyn DiskFS> = Box::new(d);
+    let mut names = Vec::new();
+    if disk.write_text("HELLO.TEXT", "HELLO WORLD\nSECOND LINE\n").is_ok() { names.push("HELLO.TEXT".to_string()); }
+    let data: Vec<u8> = (0..700u32).map(|i| (i * 7 % 251) as u8).collect();
+    if disk.bsave("BIN1.CODE", &data, Some(0x300), None).is_ok() { names.push("BIN1.CODE".to_string()); }
+    let big: Vec<u8> = (0..3000u32).map(|i| (i % 253) as u8).collect();
+    if disk.bsave("BIG.DATA", &big, Some(0x2000), None).is_ok() { names.push("BIG.DATA".to_string()); }
+    if disk.bsave("LAST.DATA", &[1, 2, 3], Some(0x2000), None).is_ok() { names.push("LAST.DATA".to_string()); }
+    if names.len() < 3 { return None; }
+    names.push("NOSUCH".to_string());
+    Some((disk.get_img().to_bytes(), names))
+}
+
+fn pascal_cases(rng: &mut Rng, n_single: usize, n_multi: usize) -> Vec<Case> {
+    let Some((seed, names)) = pascal_seed() else { return vec![] };
+    let dir = 2 * 512;
+    let nfiles = peek(&seed, dir + 16, 2) as usize;
+    let hdr_end = peek(&seed, dir + 2, 2);
+    let total = peek(&seed, dir + 14, 2);
+    let blk16 = |extra: &[u64]| -> Vec<u64> {
+        let mut v = vec![0, 1, 2, 3, 5, 6, 7, 19, 20, 21, hdr_end.wrapping_sub(1), hdr_end, hdr_end + 1, total - 1, total, total + 1, 0x7fff, 0x8000, 0xfffe, 0xffff];
+        v.extend_from_slice(extra); dedup(v, 2)
+    };
+    let mut fields: Vec<Field> = Vec::new();
+    fields.push(Field { off: dir, width: 2, name: "hdr.begin".into(), vals: blk16(&[]) });
+    fields.push(Field { off: dir + 2, width: 2, name: "hdr.end".into(), vals: blk16(&[4, 8, 279, 281, 300]) });
+    fields.push(Field { off: dir + 4, width: 2, name: "hdr.type".into(), vals: dedup(vec![0, 1, 0xff, 0x100, 0xffff], 2) });
+    fields.push(Field { off: dir + 6, width: 1, name: "hdr.name_len".into(), vals: vec![0, 1, 4, 7, 8, 15, 16, 0x80, 0xff] });
+    for k in 0..7 { fields.push(Field { off: dir + 7 + k, width: 1, name: format!("hdr.name[{}]", k), vals: vec![0, 0x1f, 0x20, 0x7e, 0x7f, 0x80, 0xc3, 0xff] }); }
+    fields.push(Field { off: dir + 14, width: 2, name: "hdr.total".into(), vals: blk16(&[279, 281, 300]) });
+    fields.push(Field { off: dir + 16, width: 2, name: "hdr.num_files".into(), vals: dedup(vec![0, 1, nfiles as u64 - 1, nfiles as u64, nfiles as u64 + 1, 76, 77, 78, 79, 0xff, 0x100, 0xffff], 2) });
+    fields.push(Field { off: dir + 18, width: 2, name: "hdr.access".into(), vals: vec![0, 0xffff] });
+    fields.push(Field { off: dir + 20, width: 2, name: "hdr.date".into(), vals: vec![0, 1, 0x0010, 0xffff, 0x01ed] });
+    // entries: the live ones, the first free slot, the slot that straddles blocks 2/3, the last slot
+    let mut slots: Vec<usize> = (0..nfiles + 1).collect();
+    slots.extend_from_slice(&[18, 76]);
+    for s in slots {
+        let e = dir + 26 * (s + 1);
+        let beg = peek(&seed, e, 2); let end = peek(&seed, e + 2, 2);
+        fields.push(Field { off: e, width: 2, name: format!("e{}.begin", s), vals: blk16(&[beg.wrapping_sub(1), beg + 1, end, end + 1]) });
+        fields.push(Field { off: e + 2, width: 2, name: format!("e{}.end", s), vals: blk16(&[beg, beg + 1, beg.wrapping_sub(1), end + 1, end.wrapping_sub(1)]) });
+        fields.push(Field { off: e + 4, width: 2, name: format!("e{}.type", s), vals: dedup(vec![0, 1, 2, 3, 5, 8, 9, 0xff, 0x100, 0xffff], 2) });
+        fields.push(Field { off: e + 6, width: 1, name: format!("e{}.name_len", s), vals: vec![0, 1, 5, 14, 15, 16, 0x7f, 0x80, 0xff] });
+        for k in [0usize, 1, 9, 14] { fields.push(Field { off: e + 7 + k, width: 1, name: format!("e{}.name[{}]", s, k), vals: vec![0, 0x1f, 0x20, 0x2e, 0x7e, 0x7f, 0x80, 0xc3, 0xff] }); }
+        fields.push(Field { off: e + 22, width: 2, name: format!("e{}.bytes_remaining", s), vals: dedup(vec![0, 1, 511, 512, 513, 1023, 1024, 0x7fff, 0xffff], 2) });
+        fields.push(Field { off: e + 24, width: 2, name: format!("e{}.date", s), vals: vec![0, 1, 0x0010, 0x01ed, 0xffff] });
+    }
+    // probe: does the real code have repair `c12fs-pascal-name-conversion`? (witness: stale slot with name_len 16)
+    let fixed = {
+        let mut b = seed.clone();
+        let e = dir + 26 * (nfiles + 1);
+        poke(&mut b, e, 2, 200); poke(&mut b, e + 2, 2, 201); b[e + 6] = 16;
+        let r = guarded(|| { let img = a2kit::img::dsk_po::PO::from_bytes(&b).ok()?; let mut d = a2kit::fs::pascal::Disk::from_img(Box::new(img)).ok()?; d.catalog_to_vec("/").ok() });
+        if r.is_ok() { "1" } else { "0" }
+    };
+    let mut out = vec![Case { fs: "pas", bytes: seed.clone(), unit: 512, desc: "seed".into(), names: names.clone(), extra: fixed.into(), trivial: true }];
+    // hand-made: a live-looking entry behind num_files (stale slot) with a name the listing cannot convert
+    for (what, len, ch) in [("stale-slot-name_len-16", 16u8, b'A'), ("stale-slot-name-byte-ff", 5u8, 0xffu8), ("stale-slot-valid", 5u8, b'A')] {
+        let mut b = seed.clone();
+        let e = dir + 26 * (nfiles + 1);
+        poke(&mut b, e, 2, 200); poke(&mut b, e + 2, 2, 201); poke(&mut b, e + 4, 2, 5); b[e + 6] = len;
+        for k in 0..15 { b[e + 7 + k] = ch; }
+        poke(&mut b, e + 22, 2, 512);
+        out.push(Case { fs: "pas", bytes: b, unit: 512, desc: what.into(), names: names.clone(), extra: fixed.into(), trivial: false });
+    }
+    out.extend(cases_from_fields("pas", &seed, 512, &names, fixed, &fields, rng, n_single, n_multi));
+    // second seed: the first unused slot still describes a file (what a delete of the last file leaves behind when
+    // only num_files is decremented); the listing walks it, test_img does not
+    let mut seed2 = seed.clone();
+    {
+        let e = dir + 26 * (nfiles + 1);
+        poke(&mut seed2, e, 2, 200); poke(&mut seed2, e + 2, 2, 203); poke(&mut seed2, e + 4, 2, 5); seed2[e + 6] = 9;
+        for (k, c) in b"STALE.ONE".iter().enumerate() { seed2[e + 7 + k] = *c; }
+        poke(&mut seed2, e + 22, 2, 100);
+    }
+    let tag = format!("e{}.", nfiles);
+    let f2: Vec<Field> = fields.iter().filter(|f| f.name.starts_with(&tag) || f.name == "hdr.num_files" || f.name == "hdr.total").cloned().collect();
+    let mut names2 = names.clone(); names2.push("STALE.ONE".to_string());
+    out.push(Case { fs: "pas", bytes: seed2.clone(), unit: 512, desc: "stale-seed".into(), names: names2.clone(), extra: fixed.into(), trivial: false });
+    for mut c in cases_from_fields("pas", &seed2, 512, &names2, fixed, &f2, rng, n_single / 4, n_multi / 4) { c.desc = format!("stale-seed {}", c.desc); out.push(c); }
+    out
+}
+
+/// identify + mount + read-only queries of the Pascal module; one token per call
+fn pascal_exercise(bytes: &Vec<u8>, names: &[String]) -> (Vec<Call>, bool) {
+    let mut calls = Vec::new();
+    let mut mounted = false;
+    let Ok(img) = a2kit::img::dsk_po::PO::from_bytes(bytes) else { return (calls, false) };
+    let mut bimg: Box<dyn DiskImage> = Box::new(img);
+    if let Some(t) = call("id", &mut calls, || Ok::<bool, ()>(a2kit::fs::pascal::Disk::test_img(&mut bimg))) {
+        mounted = t;
+        if let Some(c) = calls.last_mut() { c.op = format!("id={}", if t { "T" } else { "F" }); }
+    }
+    let Some(d) = call("mount", &mut calls, || a2kit::fs::pascal::Disk::from_img(bimg)) else { return (calls, mounted) };
+    let mut disk: Box<dyn DiskFS> = Box::new(d);
+    read_queries(&mut disk, names, &mut calls, false);
+    (calls, mounted)
+}
+
+/// stat, catalog, tree, glob, get of the fixed names and of every listed name (at most 12 more)
+fn read_queries(disk: &mut Box<dyn DiskFS>, names: &[String], calls: &mut Vec<Call>, hier: bool) {
+    if let Some(s) = call("stat", calls, || disk.stat()) { let _ = guarded(|| s.to_json(None)); }
+    let cat = call("cat", calls, || disk.catalog_to_vec("/"));
+    call("tree", calls, || disk.tree(true, None));
+    let mut listed: Vec<String> = Vec::new();
+    if let Some(g) = call("glob", calls, || disk.glob("*", false)) { listed.extend(g); }
+    if hier { if let Some(g) = call("glob2", calls, || disk.glob("*/*", false)) { listed.extend(g); } }
+    if let Some(rows) = &cat { for row in rows { if row.len() > 12 { listed.push(row[12..].to_string()); } } }
+    listed.sort(); listed.dedup();
+    listed.retain(|n| !names.contains(n) && n.is_ascii() && !n.is_empty() && !n.contains(' ') && !n.contains(','));
+    let mut all: Vec<String> = names.to_vec();
+    all.extend(listed.into_iter().take(12));
+    for n in all {
+        if let Some(f) = call(&format!("get:{}", hx(n.as_bytes())), calls, || disk.get(&n)) { let _ = guarded(|| { let _ = f.unpack_raw(true); f.to_json(None) }); }
+    }
+}
+
+// ------------------------------------------------------------------------------------------------
+// run
+// ------------------------------------------------------------------------------------------------
+
+struct Run<'a> {
+    ctx: &'a mut Ctx,
+    w: std::io::LineWriter<std::fs::File>,
+    cur_path: String,
+    start: usize,
+    idx: usize,
+    hangs: usize,
+}
+
+impl<'a> Run<'a> {
+    fn claim(&mut self) -> Option<usize> {
+        let i = self.idx; self.idx += 1;
+        if i >= self.start && self.ctx.out.wants(i) { Some(i) } else { None }
+    }
+    fn line(&mut self, s: String) { use std::io::Write; let _ = writeln!(self.w, "{}", s.replace('\n', " ")); }
+    fn mark(&mut self, idx: usize, front: &str, desc: &str) {
+        let _ = std::fs::write(&self.cur_path, format!("{}\t{}\t{}", idx, front, desc.replace('\t', " ").replace('\n', " ")));
+    }
+}
+
+fn exercise(c: &Case) -> (Vec<Call>, bool) {
+    match c.fs {
+        "pas" => pascal_exercise(&c.bytes, &c.names),
+        _ => (Vec::new(), false),
+    }
+}
+
+fn all_cases(ctx: &Ctx) -> Vec<Case> {
+    let mut rng0 = Rng::new(ctx.seed ^ 0xC12F5);
+    let mut v = Vec::new();
+    let mut g = rng0.fork(1);
+    v.extend(pascal_cases(&mut g, ctx.n(500, 6000), ctx.n(300, 6000)));
+    v
+}
+
+fn child(ctx: &mut Ctx, start: usize, rec_path: &str) {
+    let f = std::fs::File::create(rec_path).expect("create record file");
+    let cases = all_cases(ctx);
+    let mut r = Run { ctx, w: std::io::LineWriter::new(f), cur_path: format!("{}.cur", rec_path), start, idx: 0, hangs: 0 };
+    for c in cases {
+        let Some(idx) = r.claim() else { continue };
+        let front = format!("fs/{}", c.fs);
+        if r.hangs >= 3 { r.line(format!("D\tskipped-after-hangs:{}\t1", front)); continue; }
+        r.mark(idx, &front, &c.desc);
+        let c2 = c.clone();
+        let o = watched(20000, move || {
+            let (calls, mounted) = exercise(&c2);
+            let mut s = format!("{}", if mounted { "M" } else { "U" });
+            for k in &calls { s += &format!("\x1f{}\x1e{}\x1e{}", k.op, k.class, k.site); }
+            s
+        });
+        match o {
+            Outc::Hang => {
+                r.hangs += 1;
+                r.line(format!("O\tFAIL\t{}\thang:{}\tidx={} front={} input={}", ORACLE, front, idx, front, c.desc));
+                r.line(format!("D\t{}:hang\t1", c.fs));
+            }
+            Outc::Done(s) => {
+                let mut parts = s.split('\x1f');
+                let mounted = parts.next() == Some("M");
+                let mut toks: Vec<String> = Vec::new();
+                let mut fail: Option<(String, String)> = None;
+                let mut any_panic = false;
+                for p in parts {
+                    let f: Vec<&str> = p.split('\x1e').collect();
+                    if f.len() < 3 { continue; }
+                    toks.push(format!("{}:{}", f[0], f[1]));
+                    if f[1] == "panic" { any_panic = true; if fail.is_none() { fail = Some((f[0].to_string(), f[2].to_string())); } }
+                }
+                // the tie: same classes from the model
+                let got: Vec<String> = toks.iter().filter(|t| t.starts_with("get:")).map(|t| t[4..].split(':').next().unwrap_or("").to_string()).collect();
+                let req = format!("c12fs {} {} {} {}{}", c.fs, c.bytes.len() / c.unit, sparse_units(&c.bytes, c.unit),
+                    if got.is_empty() { "-".to_string() } else { got.join(",") },
+                    if c.extra.is_empty() { String::new() } else { format!(" {}", c.extra) });
+                r.line(format!("Q\t{}\t{}", req, toks.join(" ")));
+                r.line(format!("D\t{}:{}{}\t1", c.fs, if mounted { "mounted" } else { "not-mounted" }, if any_panic { ":panic" } else { "" }));
+                match (&fail, mounted) {
+                    (Some((op, site)), true) => r.line(format!("O\tFAIL\t{}\t{}\tidx={} front={} op={} at={} input={}", ORACLE, panic_sig(site), idx, front, op, site, c.desc)),
+                    _ => r.line(format!("O\tPASS\t{}\t-\tidx={} {}", ORACLE, idx, front)),
+                }
+                if idx < 3 { r.line(format!("S\t{} {}: {}", c.fs, c.desc, toks.join(" "))); }
+            }
+        }
+        r.line(format!("C\t{:016X}\t{}", fnv(&[c.fs.as_bytes(), c.desc.as_bytes()].concat()), if c.trivial { 0 } else { 1 }));
+    }
+    r.line("END".to_string());
+}
+
+pub fn run(ctx: &mut Ctx) {
+    if let Ok(spec) = std::env::var("C12FS_CHILD") {
+        let (a, b) = spec.split_once(':').expect("C12FS_CHILD");
+        child(ctx, a.parse().expect("C12FS_CHILD idx"), b);
+        return;
+    }
+    let exe = std::env::current_exe().expect("current_exe");
+    let tier = if ctx.tier_thorough { "thorough" } else { "quick" };
+    let tmp = std::env::temp_dir().join(format!("c12fs-{}-{}", std::process::id(), ctx.seed));
+    let rec = format!("{}.rec", tmp.display());
+    let mut start = 0usize;
+    let mut aborts = 0;
+    let mut dist: std::collections::BTreeMap<String, u64> = Default::default();
+    loop {
+        let _ = std::fs::remove_file(format!("{}.cur", rec));
+        let mut cmd = std::process::Command::new(&exe);
+        cmd.arg("c12fs").arg(tier).arg(ctx.seed.to_string()).arg(format!("{}.ctxout", tmp.display()));
+        if let Some(k) = ctx.out.only { cmd.arg("--only").arg(k.to_string()); }
+        cmd.env("C12FS_CHILD", format!("{}:{}", start, rec)).stdout(std::process::Stdio::null());
+        match std::fs::File::create(format!("{}.err", tmp.display())) { Ok(f) => { cmd.stderr(f); } Err(_) => { cmd.stderr(std::process::Stdio::null()); } }
+        die_with_parent(&mut cmd);
+        let status = cmd.status();
+        let mut ended = false;
+        if let Ok(text) = std::fs::read(&rec) {
+            for line in String::from_utf8_lossy(&text).lines() {
+                let p: Vec<&str> = line.split('\t').collect();
+                match p[0] {
+                    "Q" if p.len() >= 3 => ctx.out.q(p[1], p[2]),
+                    "O" if p.len() >= 5 => ctx.out.oracle(p[1] == "PASS", p[2], p[3], p[4]),
+                    "C" if p.len() >= 3 => ctx.out.case(p[1].as_bytes(), p[2] == "1"),
+                    "S" if p.len() >= 2 => ctx.out.sample(p[1]),
+                    "D" if p.len() >= 3 => { *dist.entry(p[1].to_string()).or_insert(0) += p[2].parse::<u64>().unwrap_or(0); }
+                    "END" => ended = true,
+                    _ => {}
+                }
+            }
+        }
+        let ok = matches!(&status, Ok(st) if st.success());
+        if ok && ended { break; }
+        aborts += 1;
+        let cur = std::fs::read_to_string(format!("{}.cur", rec)).unwrap_or_default();
+        let p: Vec<&str> = cur.split('\t').collect();
+        let errtxt = std::fs::read_to_string(format!("{}.err", tmp.display())).unwrap_or_default();
+        let errtail: String = errtxt.lines().rev().take(3).collect::<Vec<&str>>().into_iter().rev().collect::<Vec<&str>>().join(" | ");
+        let how = format!("{}; stderr: {}", match &status { Ok(st) => format!("{}", st), Err(e) => format!("{}", e) }, errtail.chars().take(300).collect::<String>());
+        if p.len() >= 3 {
+            let idx: usize = p[0].parse().unwrap_or(usize::MAX - 1);
+            ctx.out.oracle(false, ORACLE, &format!("abort:{}", p[1]), &format!("idx={} front={} process died ({}) input={}", idx, p[1], how, p[2]));
+            if ctx.out.only.is_some() || aborts >= 40 || idx < start { break; }
+            start = idx + 1;
+        } else {
+            ctx.out.oracle(false, ORACLE, "abort:harness", &format!("idx=0 child process died ({}) before its first case", how));
+            break;
+        }
+    }
+    for (k, v) in dist { ctx.out.count_n(&k, v); }
+    for sfx in [".rec", ".rec.cur", ".ctxout", ".err"] { let _ = std::fs::remove_file(format!("{}{}", tmp.display(), sfx)); }
+}
